@@ -249,6 +249,8 @@ PremergeNode(n, path, into, intoNone) ==
            ELSE IF ~HasPath(into, path) \/ path = <<>> THEN Err("PremergeError", path, path)
            ELSE LET t == At(into, path)
                 IN IF ~IsList(t) THEN Err("PremergeError", path, path)
+                   ELSE IF Mut("AppendPrepends")
+                   THEN [o |-> ExtendList([t EXCEPT !.ch = <<>>], n.ch \o t.ch), into |-> RemoveAt(into, path)]
                    ELSE [o |-> ExtendList(t, n.ch), into |-> RemoveAt(into, path)]
       [] n.k = "extend" ->
            IF intoNone \/ ~HasPath(into, path) \/ path = <<>> THEN [o |-> PlainListOf(n, "T"), into |-> into]
@@ -257,7 +259,7 @@ PremergeNode(n, path, into, intoNone) ==
                    ELSE [o |-> ExtendList(t, n.ch), into |-> RemoveAt(into, path)]
       [] n.k = "prev" ->
            IF intoNone \/ n.ref = <<>> \/ ~HasPath(into, n.ref) THEN Err("PremergeError", path, n.ref)
-           ELSE [o |-> At(into, n.ref), into |-> RemoveAt(into, n.ref)]
+           ELSE [o |-> At(into, n.ref), into |-> IF Mut("PrevCopies") THEN into ELSE RemoveAt(into, n.ref)]
       [] n.k = "clear" ->
            IF intoNone \/ ~HasPath(into, path) THEN Err("PremergeError", path, path)
            ELSE LET t == At(into, path)
